@@ -139,29 +139,57 @@ pub fn c04_value<V: Variant>(b: &[u8], rep: &mut Report) {
 /// An accepted string in random letter case, with or without prefix, re-formats to its canonical form.
 pub fn c04_accepted<V: Variant>(s: &[u8], rep: &mut Report) {
     let case = || Json::obj().with("variant", V::NAME).with("text", Json::hex(s));
-    let r = guard(|| {
-        let h = V::H::from_str_bytes(s, None).ok()?;
-        Some((format!("{}", h), text_of::<V>(&h, true).unwrap_or_default()))
-    });
-    rep.eval(2);
-    match r {
-        Err(p) => rep.violation(&format!("c04|{}|panic", V::NAME), &format!("panic: {} at {}", p.message, p.location), case()),
-        Ok(None) => rep.count("accepted_string_rejected", 1),
-        Ok(Some((disp, stored))) => {
-            let body = if s.len() == V::LEN_STR { &s[2..] } else { s };
-            let mut canon = b"T1".to_vec();
-            canon.extend(body.iter().map(|c| c.to_ascii_uppercase()));
-            if disp.as_bytes() != canon.as_slice() || stored != canon {
-                rep.violation(
-                    &format!("c04|{}|canonical", V::NAME),
-                    &format!(
-                        "accepted {:?} re-formats to {:?}, expected {:?}",
-                        String::from_utf8_lossy(s),
-                        disp,
-                        String::from_utf8_lossy(&canon)
-                    ),
-                    case(),
-                );
+    // every prefix mode of the parser: whatever any of them accepts must be a spelling of the
+    // canonical form ("T1" exactly, or no prefix, then the digits in either case)
+    let modes: [(&str, Option<HexStringPrefix>); 3] = [("None", None), ("WithVersion", Some(HexStringPrefix::WithVersion)), ("Empty", Some(HexStringPrefix::Empty))];
+    for (mi, (mode_name, mode)) in modes.into_iter().enumerate() {
+        let r = guard(|| {
+            let h = V::H::from_str_bytes(s, mode).ok()?;
+            Some((format!("{}", h), text_of::<V>(&h, true).unwrap_or_default()))
+        });
+        rep.eval(2);
+        match r {
+            Err(p) => rep.violation(&format!("c04|{}|panic", V::NAME), &format!("panic ({}): {} at {}", mode_name, p.message, p.location), case()),
+            Ok(None) => {
+                if mi == 0 {
+                    rep.count("accepted_string_rejected", 1)
+                }
+            }
+            Ok(Some((disp, stored))) => {
+                rep.count(&format!("accepted_in_mode:{}", mode_name), 1);
+                let shape_ok = match mi {
+                    0 => s.len() == V::LEN_STR - 2 || s.len() == V::LEN_STR && s.starts_with(b"T1"),
+                    1 => s.len() == V::LEN_STR && s.starts_with(b"T1"),
+                    _ => s.len() == V::LEN_STR - 2,
+                };
+                let body = if s.len() == V::LEN_STR { &s[2..] } else { s };
+                let mut canon = b"T1".to_vec();
+                canon.extend(body.iter().map(|c| c.to_ascii_uppercase()));
+                if !shape_ok {
+                    rep.violation(
+                        &format!("c04|{}|accepted-noncanonical-shape|{}", V::NAME, mode_name),
+                        &format!(
+                            "from_str_bytes(.., {}) accepted {:?} ({} bytes), which is not a spelling of any canonical form; it re-formats to {:?}",
+                            mode_name,
+                            String::from_utf8_lossy(s),
+                            s.len(),
+                            disp
+                        ),
+                        case(),
+                    );
+                } else if disp.as_bytes() != canon.as_slice() || stored != canon {
+                    rep.violation(
+                        &format!("c04|{}|canonical", V::NAME),
+                        &format!(
+                            "accepted {:?} ({}) re-formats to {:?}, expected {:?}",
+                            String::from_utf8_lossy(s),
+                            mode_name,
+                            disp,
+                            String::from_utf8_lossy(&canon)
+                        ),
+                        case(),
+                    );
+                }
             }
         }
     }
@@ -192,7 +220,7 @@ fn c04_variant<V: Variant>(ctx: &Ctx, rep: &mut Report) {
         for _ in 0..3 {
             let mut m = s.clone();
             for _ in 0..rng.range(1, 2) {
-                let p = rng.below(m.len() as u64) as usize;
+                let p = if m.len() == V::LEN_STR && rng.chance(1, 4) { rng.below(2) as usize } else { rng.below(m.len() as u64) as usize };
                 m[p] = match rng.below(4) {
                     0 => rng.next_u8(),
                     1 => *rng.pick(&[b'G', b'g', b'@', b'`', b'/', b':', b'O', b'o', b'l', b' ', 0u8]),
@@ -431,7 +459,7 @@ fn c05_variant<V: Variant>(ctx: &Ctx, rep: &mut Report) {
     let n = ctx.n(40_000, 4_000_000);
     for i in 0..n {
         let mut rng = ctx.rng("c05-soup", (V::INDEX as u64) << 48 | i);
-        let s: Vec<u8> = match rng.below(6) {
+        let s: Vec<u8> = match rng.below(7) {
             0 => {
                 let len = *rng.pick(&[V::LEN_STR, V::LEN_STR - 2, V::LEN_STR - 1, V::LEN_STR + 1, V::LEN_STR - 3]);
                 rng.bytes(len)
@@ -471,6 +499,10 @@ fn c05_variant<V: Variant>(ctx: &Ctx, rep: &mut Report) {
             4 => {
                 rep.count("c05:utf8_multibyte_strings", 1);
                 super::c12::non_ascii_string::<V>(&mut rng).into_bytes()
+            }
+            5 => {
+                rep.count("c05:decorated_strings", 1);
+                super::c12::decorated_string::<V>(&mut rng).into_bytes()
             }
             _ => {
                 let b = gen::hash_bytes(&mut rng, V::SIZE, V::CK, V::NB, false);
@@ -514,6 +546,7 @@ pub fn run_c05(ctx: &Ctx, rep: &mut Report) {
         rep.floor("c05:pairs_enumerated", 1);
     }
     rep.floor("c05:utf8_multibyte_strings", 20);
+    rep.floor("c05:decorated_strings", 20);
 }
 
 // ---------------------------------------------------------------------------
@@ -646,6 +679,14 @@ fn c06_variant<V: Variant>(ctx: &Ctx, rep: &mut Report) {
         let mut rng = ctx.rng("c06", (V::INDEX as u64) << 48 | i);
         let b = gen::hash_bytes(&mut rng, V::SIZE, V::CK, V::NB, false);
         bytes_check::<V>(&b, rep);
+        if i % 8 == 0 {
+            // the binary form written into a caller's buffer that is not exactly SIZE long
+            // (a reused scratch buffer, a slot in a larger record): same bytes, same length
+            let extra = *rng.pick(&[1usize, 2, 3, 29, 64, 200]);
+            let len = if rng.chance(1, 8) { rng.below(V::SIZE as u64) as usize } else { V::SIZE + extra };
+            c14_check::<V>(&b, 0, len, rng.below(5) as u8, rep);
+            rep.count("c06:store_into_other_sized_buffers", 1);
+        }
         let mut fp = b.clone();
         fp.push(V::INDEX as u8);
         rep.distinct(fingerprint(&fp));
@@ -728,6 +769,15 @@ pub fn c14_check<V: Variant>(b: &[u8], form: u8, len: usize, canary: u8, rep: &m
     match canary {
         0 => {}
         1 => big.iter_mut().for_each(|x| *x = 0xa5),
+        3 => {
+            // text already in the buffer: lower-case letters and digits (a case fold or a
+            // re-encode that runs past the representation changes them), also what a previous,
+            // longer representation would have left behind
+            const T: &[u8] = b"the quick brown fox jumps over the lazy dog 0123456789abcdef";
+            let o = rng.below(T.len() as u64) as usize;
+            big.iter_mut().enumerate().for_each(|(i, x)| *x = T[(i + o) % T.len()]);
+        }
+        4 => big.iter_mut().for_each(|x| *x = 0xff),
         _ => rng.fill(&mut big),
     }
     let before = big.clone();
@@ -792,7 +842,7 @@ fn c14_variant<V: Variant>(ctx: &Ctx, rep: &mut Report) {
             let max_len = need + if dense { extra.min(256) } else { extra };
             let mut len = 0usize;
             while len <= max_len {
-                c14_check::<V>(&b, form, len, (rng.below(3)) as u8, rep);
+                c14_check::<V>(&b, form, len, (rng.below(5)) as u8, rep);
                 let window = if ctx.scale < 1.0 { 5 } else { 70 };
                 len += if dense || len + window >= need && len <= need + window { 1 } else { 1 + rng.below(97) as usize };
             }
